@@ -562,6 +562,10 @@ func (c *connection) flush() error {
 	err = c.operator.Control(PollR2RW)
 	verifPoint(vpFlushAfterR2RW, c, 0)
 	if err != nil {
+		if !c.IsActive() {
+			// closed, and thereby detached from the poller, while this flush was in progress
+			return Exception(ErrConnClosed, "when flush")
+		}
 		return Exception(err, "when flush")
 	}
 
